@@ -161,6 +161,14 @@ class LadderEval:
                 v = self.ev(args[0])
                 if isinstance(v, Sc):
                     return Sc(sp.conjugate(v.e))
+            if name in ("abs", "absolute") and len(args) == 1:
+                v = self.ev(args[0])
+                if isinstance(v, Sc):
+                    return Sc(sp.Abs(v.e))
+            if name in ("real", "imag", "angle") and len(args) == 1:
+                v = self.ev(args[0])
+                if isinstance(v, Sc):
+                    return Sc({"real": sp.re, "imag": sp.im, "angle": sp.arg}[name](v.e))
             raise NotLadder(f"call `{norm(e)[:60]}`")
         raise NotLadder(f"expression `{norm(e)[:60]}`")
 
